@@ -9,6 +9,8 @@ import GocoinV.Proofs.C14Bip39
 import GocoinV.Proofs.C14Bip39U
 import GocoinV.Proofs.C14HD
 import GocoinV.Proofs.C14Wallet
+import GocoinV.Proofs.C14Curve
+import GocoinV.Proofs.C14Norm
 namespace GocoinV.Props.C14
 open GocoinV Proofs.C14 HD WalletKeys
 
@@ -90,19 +92,46 @@ example (C : WalletCrypto) : ∃ m, Bip39.entropyFromMnemonic C m = .ok (List.re
   obtain ⟨m, _, h⟩ := bip39_roundtrip C (List.replicate 16 0) (Or.inl (by simp))
   exact ⟨m, h⟩
 
+/-- `MnemonicToByteArray` splits the sentence with `strings.Split(m, " ")` although the validity check in front
+    of it (`EntropyFromMnemonic`) uses `strings.Fields` (observation 4 of the first report). The two agree on
+    every sentence that is a single-space join of non-empty white-space-free words — which is what
+    `NewMnemonic` produces — and on every sentence the wallet's bip39 = -1 branch hands over
+    (`normalizeMnemonic`), so inside make_wallet the discrepancy cannot be reached. -/
+theorem split_agrees_with_fields (ws : List Bytes) (hne : ws ≠ []) (h : ∀ w ∈ ws, noSpace w) (pass : Bytes) :
+    Bip39.splitSp (Bip39.joinSp ws) = Bip39.fields (Bip39.joinSp ws) ∧
+    (normalizeMnemonic pass = [] ∨
+      Bip39.splitSp (normalizeMnemonic pass) = Bip39.fields (normalizeMnemonic pass)) :=
+  ⟨by rw [splitSp_joinSp ws hne h, fields_joinSp ws h], normalize_split_eq_fields pass⟩
+
+/-- non-vacuity -/
+example : ([[97]] : List Bytes) ≠ [] ∧ ∀ w ∈ ([[97]] : List Bytes), noSpace w := by
+  refine ⟨by decide, fun w hw => ?_⟩
+  simp only [List.mem_singleton] at hw
+  subst hw
+  exact ⟨by decide, by decide⟩
+
+/-- … and outside that set they differ: "a␣␣b" (two spaces) splits into three pieces, the middle one empty
+    (`MnemonicToByteArray` then looks "" up in the word map and silently uses index 0), while
+    `strings.Fields` sees two words. Reached only through the bip39 API, not through the wallet. -/
+theorem split_differs_from_fields_witness :
+    Bip39.splitSp [97, 32, 32, 98] = [[97], [], [98]] ∧ Bip39.fields [97, 32, 32, 98] = [[97], [98]] := by
+  decide
+
 /-! ### BIP32 -/
 
 /-- `HDWallet.Child` on a private extended key IS BIP32's CKDpriv whenever CKDpriv is defined: for a
-    well-formed private key (private version bytes, key = 00‖ser256(k), k·G finite) and any index
+    well-formed private key (private version bytes, key = 00‖ser256(k), k ≢ 0 mod n) and any index
     i < 2³², if `CKDpriv((k,c),i) = (k',c')` (i.e. I_L < n and k' ≠ 0) then `Child` returns the extended
     key with key 00‖ser256(k'), chain code c', depth+1 (mod 256), child number i, the same version and
-    the parent fingerprint HASH160(serP(k·G))[0:4]. -/
-theorem ckd_priv_spec (C : WalletCrypto) (w : HDWallet) (k i k' : Nat) (c' : Bytes) (P : Nat × Nat)
-    (hw : PrivWF w k) (hi : i < 2 ^ 32) (hP : Secp.mul k Secp.G = some P)
+    the parent fingerprint HASH160(serP(k·G))[0:4]. No hypothesis about the curve: k·G is finite because
+    G has order n (`Props.C03.generator_order`). -/
+theorem ckd_priv_spec (C : WalletCrypto) (w : HDWallet) (k i k' : Nat) (c' : Bytes)
+    (hw : PrivWF w k) (hi : i < 2 ^ 32) (hk0 : k % Secp.n ≠ 0)
     (hspec : Spec.Bip32.ckdPriv C.hmac512 k w.chCode i = some (k', c')) :
     child C w i = .ok { pfx := w.pfx, depth := (w.depth + 1) % 256, idx := i, chCode := c',
                         checksum := Spec.Bip32.fingerprint C.hash160 (Spec.Bip32.point k),
                         key := 0 :: Spec.Bip32.ser256 k' } := by
+  obtain ⟨P, hP⟩ := mul_G_some k hk0
   rw [child_priv_eq C w k i P hw hi hP]
   have hk := hw.2.1
   unfold Spec.Bip32.ckdPriv at hspec
@@ -126,17 +155,20 @@ theorem ckd_priv_spec (C : WalletCrypto) (w : HDWallet) (k i k' : Nat) (c' : Byt
 /-- The deviation from BIP32, stated outright: `Child` on a well-formed private key NEVER skips an index.
     It returns a key for every i < 2³² — also when I_L ≥ n or (I_L + k) mod n = 0, where BIP32 says the
     index is invalid (probability ≈ 2⁻¹²⁷; recorded as an observation, not a finding). -/
-theorem child_priv_never_skips (C : WalletCrypto) (w : HDWallet) (k i : Nat) (P : Nat × Nat)
-    (hw : PrivWF w k) (hi : i < 2 ^ 32) (hP : Secp.mul k Secp.G = some P) :
-    ∃ w', child C w i = .ok w' := ⟨_, child_priv_eq C w k i P hw hi hP⟩
+theorem child_priv_never_skips (C : WalletCrypto) (w : HDWallet) (k i : Nat)
+    (hw : PrivWF w k) (hi : i < 2 ^ 32) (hk0 : k % Secp.n ≠ 0) :
+    ∃ w', child C w i = .ok w' := by
+  obtain ⟨P, hP⟩ := mul_G_some k hk0
+  exact ⟨_, child_priv_eq C w k i P hw hi hP⟩
 
 /-- `HDWallet.Child` on a public extended key IS BIP32's CKDpub whenever CKDpub is defined: for a
     well-formed public key (public version bytes, key = serP(P)) and i < 2³¹, if
     `CKDpub((P,c),i) = (Q,c')` then `Child` returns key serP(Q), chain code c', depth+1, child number i,
-    fingerprint HASH160(serP(P))[0:4]. Named hypothesis about the reference curve's point encoding:
-    `hparse` (decompressing serP(P) gives P back). -/
+    fingerprint HASH160(serP(P))[0:4]. The only requirement on P is that it is a point of the curve
+    (`hP`, part of "well-formed public key"); that decompressing serP(P) gives P back is no longer a
+    hypothesis (`parse_ser33`, from C03's `parsePubkey_ser33` / `parsePubkey_is_sec1`). -/
 theorem ckd_pub_spec (C : WalletCrypto) (w : HDWallet) (i : Nat) (P Q : Nat × Nat) (c' : Bytes)
-    (hw : PubWF w P) (hparse : Secp.parsePubkey (Secp.ser33 (some P)) = some P)
+    (hw : PubWF w P) (hP : Secp.onCurve (some P) = true)
     (hspec : Spec.Bip32.ckdPub C.hmac512 (some P) w.chCode i = some (some Q, c')) :
     child C w i = .ok { pfx := w.pfx, depth := (w.depth + 1) % 256, idx := i, chCode := c',
                         checksum := Spec.Bip32.fingerprint C.hash160 (some P),
@@ -151,20 +183,23 @@ theorem ckd_pub_spec (C : WalletCrypto) (w : HDWallet) (i : Nat) (P Q : Nat × N
     · simp at hspec
     · simp only [Option.some.injEq, Prod.mk.injEq] at hspec
       obtain ⟨hQ, rfl⟩ := hspec
-      rw [child_pub_eq C w i P Q hw (by omega) hparse hQ]
+      rw [child_pub_eq C w i P Q hw (by omega) (parse_ser33 P hP) hQ]
       simp [Spec.Bip32.fingerprint, Spec.Bip32.serP, hk]
 
 /-- Public derivation commutes with private derivation: for a well-formed private key w (scalar k,
-    k·G = P finite) and a NON-hardened index i < 2³¹, `Pub(Child(w,i)) = Child(Pub(w),i)` — both as results
+    k ≢ 0 mod n) and a NON-hardened index i < 2³¹, `Pub(Child(w,i)) = Child(Pub(w),i)` — both as results
     (including the case where both are the point at infinity, which the model marks `.outside`).
-    The group-law facts of the reference curve are explicit hypotheses (their proof belongs to C08):
-    `hadd`  (a+b mod n)·G = a·G + b·G for the scalars that occur, and
-    `hparse` decompressing serP(P) gives P back. -/
-theorem pub_commutes (C : WalletCrypto) (w : HDWallet) (k i : Nat) (P : Nat × Nat)
-    (hw : PrivWF w k) (hi : i < 2 ^ 31) (hP : Secp.mul k Secp.G = some P)
-    (hparse : Secp.parsePubkey (Secp.ser33 (some P)) = some P)
-    (hadd : ∀ a : Nat, Secp.mul ((a + k) % Secp.n) Secp.G = Secp.add (Secp.mul a Secp.G) (Secp.mul k Secp.G)) :
+    UNCONDITIONAL: the group-law facts the first version took as hypotheses — (a+k mod n)·G = a·G + k·G
+    and parse(serP(P)) = P — are now theorems (`mul_add_mod_G`, `parse_ser33` in Proofs/C14Curve.lean,
+    derived from C03's `reference_curve_group_law`, `generator_order` and `parsePubkey_ser33`). -/
+theorem pub_commutes (C : WalletCrypto) (w : HDWallet) (k i : Nat)
+    (hw : PrivWF w k) (hi : i < 2 ^ 31) (hk0 : k % Secp.n ≠ 0) :
     (child C w i >>= pub) = (pub w >>= fun pw => child C pw i) := by
+  obtain ⟨P, hP⟩ := mul_G_some k hk0
+  have hparse : Secp.parsePubkey (Secp.ser33 (some P)) = some P :=
+    parse_ser33 P (by rw [← hP]; exact mul_G_onCurve k)
+  have hadd : ∀ a : Nat, Secp.mul ((a + k) % Secp.n) Secp.G = Secp.add (Secp.mul a Secp.G) (Secp.mul k Secp.G) :=
+    fun a => mul_add_mod_G a k
   have hi2 : i < 2 ^ 32 := Nat.lt_trans hi (by decide)
   have h31 : ¬ (i ≥ 2 ^ 31) := by omega
   rw [child_priv_eq C w k i P hw hi2 hP, pub_priv_eq w k P hw hP]
@@ -198,16 +233,72 @@ theorem pub_commutes (C : WalletCrypto) (w : HDWallet) (k i : Nat) (P : Nat × N
   | none => simp [serPoint]
   | some Q => simp [serPoint]
 
-/-- non-vacuity of `PrivWF` / the finite-point hypothesis: the extended key with scalar 1 -/
+/-- non-vacuity of `PrivWF` / `k ≢ 0`: the extended key with scalar 1 -/
 example : PrivWF { chCode := List.replicate 32 0, key := 0 :: Spec.Bip32.ser256 1, pfx := Gen.HDConsts.pfxPrivate,
-                   idx := 0, checksum := [0, 0, 0, 0], depth := 0 } 1 ∧
-    Secp.mul 1 Secp.G = some (Secp.Gx, Secp.Gy) := by
-  refine ⟨⟨by decide, rfl, by decide⟩, by decide +kernel⟩
+                   idx := 0, checksum := [0, 0, 0, 0], depth := 0 } 1 ∧ 1 % Secp.n ≠ 0 := by
+  refine ⟨⟨by decide, rfl, by decide⟩, by decide⟩
+
+/-- non-vacuity of `PubWF` / `onCurve`: the public extended key holding G -/
+example : PubWF { chCode := List.replicate 32 0, key := Secp.ser33 Secp.G, pfx := Gen.HDConsts.pfxPublic,
+                  idx := 0, checksum := [0, 0, 0, 0], depth := 0 } (Secp.Gx, Secp.Gy) ∧
+    Secp.onCurve (some (Secp.Gx, Secp.Gy)) = true := by
+  refine ⟨⟨by decide, by decide, rfl⟩, by decide +kernel⟩
 
 /-- non-vacuity of the `hspec` hypothesis of `ckd_priv_spec`: with a toy HMAC (constant 64 bytes 01)
     CKDpriv of the scalar 1 is defined for the hardened index 2³¹ -/
 example : (Spec.Bip32.ckdPriv (fun _ _ => List.replicate 64 1) 1 (List.replicate 32 0) (2 ^ 31)).isSome = true := by
   decide +kernel
+
+/-- The region where `Child` on a private key leaves the model, exactly: for a well-formed private key with
+    scalar k and any i < 2³², `Child` is `.outside` (gocoin serialises stale coordinates as the "public key")
+    IF AND ONLY IF k ≡ 0 mod n; otherwise it returns a key (`child_priv_never_skips`). So the "outside"
+    marking of the private side is one residue class — the harness keeps its generators out of it and
+    replays BaseMultiply(0) as an observation. -/
+theorem child_priv_outside_iff (C : WalletCrypto) (w : HDWallet) (k i : Nat)
+    (hw : PrivWF w k) (hi : i < 2 ^ 32) :
+    child C w i = .error .outside ↔ k % Secp.n = 0 := by
+  constructor
+  · intro h
+    apply Classical.byContradiction
+    intro hk0
+    obtain ⟨w', hw'⟩ := child_priv_never_skips C w k i hw hi hk0
+    rw [hw'] at h; cases h
+  · intro h
+    exact child_priv_inf C w k i hw hi ((mul_G_none_iff k).mpr h)
+
+/-- non-vacuity: the key with scalar 0 is well formed -/
+example : PrivWF { chCode := List.replicate 32 0, key := 0 :: Spec.Bip32.ser256 0, pfx := Gen.HDConsts.pfxPrivate,
+                   idx := 0, checksum := [0, 0, 0, 0], depth := 0 } 0 := ⟨by decide, rfl, by decide⟩
+
+/-- The same for the public side: for the public extended key of the scalar k (key = serP(k·G), k ≢ 0) and
+    a non-hardened i, `Child` is `.outside` IF AND ONLY IF I_L + k ≡ 0 mod n (the sum is the point at
+    infinity — BIP32 says "invalid, proceed with the next i"; gocoin returns stale coordinates); otherwise
+    it returns a key. -/
+theorem child_pub_outside_iff (C : WalletCrypto) (w : HDWallet) (k i : Nat) (P : Nat × Nat)
+    (hw : PubWF w P) (hP : Secp.mul k Secp.G = some P) (hi : i < 2 ^ 31) :
+    (child C w i = .error .outside ↔
+      (beVal ((C.hmac512 w.chCode (w.key ++ beBytes 4 i)).take 32) + k) % Secp.n = 0) ∧
+    ((beVal ((C.hmac512 w.chCode (w.key ++ beBytes 4 i)).take 32) + k) % Secp.n ≠ 0 → ∃ w', child C w i = .ok w') := by
+  have hon : Secp.onCurve (some P) = true := by rw [← hP]; exact mul_G_onCurve k
+  have hparse := parse_ser33 P hon
+  have hiff := add_mul_G_none_iff (beVal ((C.hmac512 w.chCode (w.key ++ beBytes 4 i)).take 32)) k
+  rw [hP] at hiff
+  have hok : (beVal ((C.hmac512 w.chCode (w.key ++ beBytes 4 i)).take 32) + k) % Secp.n ≠ 0 →
+      ∃ w', child C w i = .ok w' := by
+    intro hne
+    cases hQ : Secp.add (Secp.mul (beVal ((C.hmac512 w.chCode (w.key ++ beBytes 4 i)).take 32)) Secp.G) (some P) with
+    | none => exact absurd (hiff.mp hQ) hne
+    | some Q => exact ⟨_, child_pub_eq C w i P Q hw hi hparse hQ⟩
+  refine ⟨⟨fun h => ?_, fun h => child_pub_inf C w i P hw hi hparse (hiff.mpr h)⟩, hok⟩
+  apply Classical.byContradiction
+  intro hne
+  obtain ⟨w', hw'⟩ := hok hne
+  rw [hw'] at h; cases h
+
+/-- non-vacuity: the public key of the scalar 1 -/
+example : PubWF { chCode := List.replicate 32 0, key := Secp.ser33 Secp.G, pfx := Gen.HDConsts.pfxPublic,
+                  idx := 0, checksum := [0, 0, 0, 0], depth := 0 } (Secp.Gx, Secp.Gy) ∧
+    Secp.mul 1 Secp.G = some (Secp.Gx, Secp.Gy) := ⟨⟨by decide, by decide, rfl⟩, by decide +kernel⟩
 
 /-! ### the wallet's path walk and key list -/
 
@@ -224,11 +315,10 @@ theorem path_walk_spec (C : WalletCrypto) (xs : List Nat) (root w' : HDWallet) (
 /-- The wallet's path walk IS BIP32 private derivation along the path: for a well-formed private root
     (scalar k in 1..n−1), a path of indexes < 2³², if BIP32's iterated CKDpriv is defined along the whole
     path and yields (k', c'), then iterated `Child` (= `walkPath`, see `path_walk_spec`) yields the
-    extended key with key 00‖ser256(k'), chain code c' and the same version. Named hypothesis about the
-    reference curve: `hfin` (j·G is a finite point for 0 < j < n — a consequence of G having order n). -/
+    extended key with key 00‖ser256(k'), chain code c' and the same version. UNCONDITIONAL: that j·G is a
+    finite point for 0 < j < n is C03's `generator_order` (imported through `mul_G_some`). -/
 theorem derive_is_bip32 (C : WalletCrypto) (path : List Nat) (w : HDWallet) (k k' : Nat) (c' : Bytes)
     (hw : PrivWF w k) (hk : 0 < k ∧ k < Secp.n)
-    (hfin : ∀ j, 0 < j → j < Secp.n → ∃ P, Secp.mul j Secp.G = some P)
     (hpath : ∀ i ∈ path, i < 2 ^ 32)
     (hspec : Spec.Bip32.derivePriv C.hmac512 (k, w.chCode) path = some (k', c')) :
     ∃ w', derive C w path = .ok w' ∧ w'.key = 0 :: Spec.Bip32.ser256 k' ∧ w'.chCode = c' ∧ w'.pfx = w.pfx := by
@@ -244,9 +334,9 @@ theorem derive_is_bip32 (C : WalletCrypto) (path : List Nat) (w : HDWallet) (k k
     | some kc =>
       obtain ⟨k1, c1⟩ := kc
       simp only [hs] at hspec
-      obtain ⟨P, hP⟩ := hfin k hk.1 hk.2
+      have hk0 : k % Secp.n ≠ 0 := by rw [Nat.mod_eq_of_lt hk.2]; omega
       have hi := hpath i List.mem_cons_self
-      have hchild := ckd_priv_spec C w k i k1 c1 P hw hi hP hs
+      have hchild := ckd_priv_spec C w k i k1 c1 hw hi hk0 hs
       have hr := ckdPriv_range _ _ _ _ _ _ hs
       have hw1 : PrivWF { pfx := w.pfx, depth := (w.depth + 1) % 256, idx := i, chCode := c1,
                           checksum := Spec.Bip32.fingerprint C.hash160 (Spec.Bip32.point k),
@@ -277,6 +367,35 @@ theorem key_list_spec (C : WalletCrypto) (hdwal : HDWallet) (last : Nat) (pre : 
 /-- non-vacuity: zero keys -/
 example (C : WalletCrypto) (w : HDWallet) : type4Pass C w 0 [] 0 0 = .ok [] := rfl
 
+/-- The uint32 wrap of `hdpath_last + i`, stated exactly (observation 2 of the first report). For a last
+    path element `last` < 2³² and key number j < 2³¹, write b = last mod 2³¹ (the number printed in the
+    label). The j-th key of a pass is `Child(hdwal, idx)` with idx = (j + last) mod 2³², its label is
+    pre/‹(j + b) mod 2³²›[']  with the quote iff `last` is hardened, and
+      * while j + b < 2³¹ the key is the BIP32 child the label names: idx = last + j, hardened iff `last` is;
+      * from j = 2³¹ − b on (the index "runs past 2³¹−1"):
+          – non-hardened `last`: idx = last + j ≥ 2³¹, i.e. the HARDENED child (last + j − 2³¹)' — while the
+            label shows the number last + j ≥ 2³¹ without a quote (not a BIP32 path element);
+          – hardened `last`: idx = j + b − 2³¹ < 2³¹, i.e. the NON-hardened children 0, 1, 2, … — while the
+            label shows (j + b)' .
+    The wallet accepts such configurations; BIP32 has no such path. -/
+theorem key_index_wrap (C : WalletCrypto) (hdwal : HDWallet) (last : Nat) (pre : Bytes) (keycnt : Nat)
+    (ks : List (Bytes × Bytes)) (h : type4Pass C hdwal last pre keycnt 0 = .ok ks)
+    (hl : last < 2 ^ 32) (j : Nat) (hj : j < ks.length) (hj31 : j < 2 ^ 31) :
+    (∃ hd, child C hdwal ((j + last) % 2 ^ 32) = .ok hd ∧ (ks[j]).1 = hd.key.drop 1) ∧
+    (ks[j]).2 = pre ++ [47] ++ decStr ((j + last % 2 ^ 31) % 2 ^ 32) ++ (if last ≥ 2 ^ 31 then [39] else []) ∧
+    (j + last % 2 ^ 31 < 2 ^ 31 → (j + last) % 2 ^ 32 = last + j ∧ ((j + last) % 2 ^ 32 ≥ 2 ^ 31 ↔ last ≥ 2 ^ 31)) ∧
+    (j + last % 2 ^ 31 ≥ 2 ^ 31 → last < 2 ^ 31 → (j + last) % 2 ^ 32 = last + j ∧ (j + last) % 2 ^ 32 ≥ 2 ^ 31) ∧
+    (j + last % 2 ^ 31 ≥ 2 ^ 31 → last ≥ 2 ^ 31 →
+      (j + last) % 2 ^ 32 = j + last % 2 ^ 31 - 2 ^ 31 ∧ (j + last) % 2 ^ 32 < 2 ^ 31) := by
+  obtain ⟨_, h2⟩ := key_list_spec C hdwal last pre keycnt ks h
+  have hlab := type4Pass_label C hdwal last pre keycnt 0 ks h j hj
+  rw [hardenedFrom_eq] at hlab
+  refine ⟨h2 j hj, by simpa using hlab, ?_, ?_, ?_⟩ <;> omega
+
+/-- non-vacuity of the wrapped branches: last = 2³¹−1, key 1 and last = 2³²−1, key 1 -/
+example : (1 + (2 ^ 31 - 1) % 2 ^ 31 ≥ 2 ^ 31 ∧ 2 ^ 31 - 1 < 2 ^ 31) ∧
+    (1 + (2 ^ 32 - 1) % 2 ^ 31 ≥ 2 ^ 31 ∧ 2 ^ 32 - 1 ≥ 2 ^ 31 ∧ 2 ^ 32 - 1 < 2 ^ 32) := by decide
+
 /-- hdsubs, one step: sub-account number `sub` re-derives the account from the remembered parent at index
     (prvidx + sub) mod 2³² — the element before the last one of the path advanced by `sub` — lists `keycnt`
     keys of it exactly like the first pass, and continues with sub+1. -/
@@ -285,21 +404,8 @@ theorem hdsubs_step_spec (C : WalletCrypto) (prvwal : HDWallet) (prvidx last key
     ∃ acct ks0 rest, child C prvwal ((prvidx + sub) % 2 ^ 32) = .ok acct ∧
       type4Pass C acct last (subLabel pre prvidx sub) keycnt 0 = .ok ks0 ∧
       type4Subs C prvwal prvidx last keycnt k (sub + 1) (subLabel pre prvidx sub) = .ok rest ∧
-      ks = ks0 ++ rest := by
-  simp only [type4Subs] at h
-  cases hc : child C prvwal ((prvidx + sub) % 2 ^ 32) with
-  | error e => simp [hc] at h
-  | ok acct =>
-    simp only [hc] at h
-    cases hp : type4Pass C acct last (subLabel pre prvidx sub) keycnt 0 with
-    | error e => simp [hp] at h
-    | ok ks0 =>
-      simp only [hp] at h
-      cases hr : type4Subs C prvwal prvidx last keycnt k (sub + 1) (subLabel pre prvidx sub) with
-      | error e => simp [hr] at h
-      | ok rest =>
-        simp only [hr, Except.ok.injEq] at h
-        exact ⟨acct, ks0, rest, rfl, hp, rfl, h.symm⟩
+      ks = ks0 ++ rest :=
+  type4Subs_step C prvwal prvidx last keycnt k sub pre ks h
 
 /-- non-vacuity: no further sub-account -/
 example (C : WalletCrypto) (w : HDWallet) : type4Subs C w 0 0 1 0 1 [] = .ok [] := rfl
